@@ -27,8 +27,9 @@ def gen_routines(seed, tier):
             ('ext', 4, 3, 1, 4, 4, 2, 'same', 'null'), ('ntt', 2, 0, 0, 7, 3, 1, 'other', 'null'), ('ntt', 5, 5, 0, 2, 2, 1, 'same', 'null'),
             # sizes beyond any plausible serial cut-off of the parallel loops
             ('ntt', 8, 8, 0, 2, 2, 1, 'same', 'null'), ('intt', 9, 9, 0, 1, 4, 1, 'same', 'null'), ('ext', 8, 8, 1, 1, 2, 1, 'same', 'null'), ('ntt', 9, 8, 0, 3, 3, 2, 'other', 'caller')]:
-        for nth in (3, 4):
-            rs.append('ntt %s %d %d %d %d %d %d %s %s %d' % (call, S, d, e, nc, nph, nb, dst, buf, nth))
+        for i, nth in enumerate((3, 4, 8, 16) if S <= 5 else (3, 4)):
+            # base vectors: seeded representation mix, and the structured ones (non-canonical words, boundary values)
+            rs.append('ntt %s %d %d %d %d %d %d %s %s %d %d' % (call, S, d, e, nc, nph, nb, dst, buf, nth, [0, 5, 3, 1][i] if S <= 5 else 0))
     builders = [0, 1, 2, 3] + ([4, 5] if vlib.have_avx512() else [])
     for b in builders:
         for rows, cols, dim, batch in [(8, 5, 1, 2), (4, 9, 3, 4), (16, 3, 1, 1), (2, 17, 1, 5), (1, 4, 1, 3)]:
